@@ -366,6 +366,55 @@ async def zmq_sequences(n_seqs, marks_at):
     return marks, state
 
 
+async def zmq_stalled_peer(n_msgs, marks_at, stall=5.0, every=2.0):
+    """the real ZeroMqPushIo / adapter with a peer that takes messages very slowly (`stall` seconds of virtual time per
+    drain) and then not at all (drain blocks; it never fails) while the simulation keeps streaming a message every `every` seconds: the unsent messages
+    wait in the adapter's queue (they are not processed yet); the number of TASKS must not follow them"""
+    from tickit.adapters.io.zeromq_push_io import ZeroMqPushIo
+    from tickit.adapters.zmq import ZeroMqPushAdapter
+    state = {"written": 0}
+
+    class Sock:
+        def write(self, parts):
+            state["written"] += 1
+
+        async def drain(self):
+            # slow at first, then the peer takes nothing at all any more (its high-water mark is reached): drain() blocks
+            if state["written"] <= 6:
+                await asyncio.sleep(stall)
+            else:
+                await never_again.wait()    # (one event for the socket's life time: its waiters stay referenced, like a transport's)
+
+        def close(self):
+            pass
+
+    async def factory(host, port):
+        await asyncio.sleep(0)
+        return Sock()
+    loop = asyncio.get_event_loop()
+    never_again = asyncio.Event()
+    io = ZeroMqPushIo("h", 1, socket_factory=factory)
+    adapter = ZeroMqPushAdapter()
+
+    async def never():
+        pass
+    setup = asyncio.ensure_future(io.setup(adapter, never))
+    marks = {}
+    for k in range(1, n_msgs + 1):
+        adapter.add_message_to_stream([b"q%d" % k])
+        await asyncio.sleep(every)
+        if k in marks_at:
+            gc.collect()
+            marks[k] = {"live_tasks": len([x for x in asyncio.all_tasks(loop) if not x.get_name().startswith("harness")]),
+                        "retained_done_tasks": sum(1 for o in gc.get_objects() if isinstance(o, asyncio.Task) and o.done())}
+    setup.cancel()
+    if getattr(io, "_task", None):
+        io._task.cancel()
+    for t in [x for x in asyncio.all_tasks(loop) if x is not asyncio.current_task() and not x.get_name().startswith("harness")]:
+        t.cancel()
+    return marks, state
+
+
 def run(tier, seed, drv):
     res = Result()
     rng = random.Random(seed)
@@ -415,6 +464,19 @@ def run(tier, seed, drv):
                               site="zeromq_push_io", resource=k), {"zmq": True, "Z": Z})
     else:
         res.violate(V("run-too-short", f"zmq run produced marks {zmarks}", site="zmq"), {"zmq": True, "Z": Z})
+    # ... and with a peer that is merely SLOW (seconds per message, never failing) while messages keep being streamed
+    ZS = 30 if tier == "quick" else 300
+    (smarks, sstate) = run_virtual(lambda loop: zmq_stalled_peer(4 * ZS, [ZS, 2 * ZS, 4 * ZS]))[0][1]
+    res.case("zmq-stalled-peer", nontrivial=True, sample={"zmq_stalled_marks": smarks, "written": sstate["written"]})
+    res.count("zmq-stalled-messages", 4 * ZS)
+    if len(smarks) == 3:
+        a, b, c = smarks[ZS], smarks[2 * ZS], smarks[4 * ZS]
+        for k in a:
+            if c[k] > a[k] + 2 and (c[k] - b[k]) >= (b[k] - a[k]) > 0:
+                res.violate(V("resource-grows", f"zeromq push io with a slow peer: {k} = {a[k]} / {b[k]} / {c[k]} after {ZS} / {2 * ZS} / {4 * ZS} streamed messages (5 s per accepted message, then a peer that takes nothing any more; one message streamed every 2 s)",
+                              site="zeromq_push_io", resource=k), {"zmq_stalled": True, "ZS": ZS})
+    else:
+        res.violate(V("run-too-short", f"zmq stalled-peer run produced marks {smarks}", site="zmq"), {"zmq_stalled": True, "ZS": ZS})
     # one TCP connection, many messages
     M = 300 if tier == "quick" else 4000
     (marks, written, ints), _ = (run_virtual(lambda loop: tcp_messages(4 * M, [M, 2 * M, 4 * M]))[0][1], None)
@@ -482,6 +544,10 @@ def replay(payload, drv):
     if "tcp_acceptor" in c:
         (events, marks) = run_virtual(lambda loop: tcp_acceptor_run(c["tcp_acceptor"]))[0][1]
         return {"events": events, "marks": marks, "violations": tcp_acceptor_judge(events, marks, drv, res, c), "divergences": res.divergences[:2]}
+    if c.get("zmq_stalled"):
+        ZS = c["ZS"]
+        (smarks, sstate) = run_virtual(lambda loop: zmq_stalled_peer(4 * ZS, [ZS, 2 * ZS, 4 * ZS]))[0][1]
+        return {"marks": smarks, "violations": [V("resource-grows", str(smarks))] if smarks and max(m["live_tasks"] for m in smarks.values()) > min(m["live_tasks"] for m in smarks.values()) + 2 else []}
     if c.get("zmq"):
         Z = c["Z"]
         (zmarks, zstate) = run_virtual(lambda loop: zmq_sequences(4 * Z, [Z, 2 * Z, 4 * Z]))[0][1]
